@@ -2,6 +2,7 @@ package syncx
 
 import (
 	"fmt"
+	"strings"
 	"time"
 
 	"go.sia.tech/core/consensus"
@@ -94,6 +95,7 @@ func (w *World) CraftFork(base, prefix string, n, badAt int, kind string) ([]typ
 	cm := w.ManagerAt(base) // oracle for the valid prefix
 	var out []types.Block
 	bogusChain := false
+	asifChain := false
 	_ = bogusChain
 	if kind == "extrapayoutbase" || kind == "payoutvaluebase" {
 		// instant-sync attack through the checkpoint BLOCK: the honest base block is served with its
@@ -166,9 +168,38 @@ func (w *World) CraftFork(base, prefix string, n, badAt int, kind string) ([]typ
 			out = append(out, b)
 			continue
 		}
-		b, ok := craftOn(cs, addr, salt, k)
+		if asifChain {
+			// built on an invalid ancestor "as if it were valid": valid relative to the full state obtained
+			// by applying the ancestors blindly -- exactly what a victim derives from a checkpoint.  Class
+			// "asif": passes pre-validation, but no chain through its invalid ancestor is valid.
+			b, ok := craftOn(cs, addr, salt, "")
+			if !ok {
+				return nil, fmt.Errorf("CraftFork: cannot build block at height %d", cs.Index.Height+1)
+			}
+			w.setCheckpointState(b.ID(), cs)
+			ns, _ := consensus.ApplyBlock(cs, b, consensus.V1BlockSupplement{}, time.Time{})
+			w.register(name, b, cs.Index.Height+1, "asif", ns)
+			cs = ns
+			out = append(out, b)
+			continue
+		}
+		asif := strings.HasSuffix(k, "-asif")
+		b, ok := craftOn(cs, addr, salt, strings.TrimSuffix(k, "-asif"))
 		if !ok {
 			return nil, fmt.Errorf("CraftFork: cannot build %q block at height %d", k, cs.Index.Height+1)
+		}
+		if asif {
+			if class := w.Classify(name, b); class != "bad" {
+				return nil, fmt.Errorf("CraftFork: %q block classified %s", k, class)
+			}
+			if b.V2 == nil {
+				return nil, fmt.Errorf("CraftFork: asif needs a v2 block")
+			}
+			// the state the attacker pretends: the invalid block applied blindly
+			cs, _ = consensus.ApplyBlock(cs, b, consensus.V1BlockSupplement{}, time.Time{})
+			asifChain = true
+			out = append(out, b)
+			continue
 		}
 		if bogusChain {
 			// valid relative to the bogus-derived state (what the victim computes from the checkpoint)
